@@ -658,7 +658,9 @@ func (d *Datastore) runDeviationUpdate(ctx context.Context, dm map[string]sdcpb.
 	intendedUpdates, err := d.readStoreKeysMeta(ctx, cachepb.Store_INTENDED)
 	if err != nil {
 		log.Error(err)
-		return
+		// the cycle was opened with START, it needs to be closed with END even if
+		// the intended store could not be read. So do not return, just skip the intended part.
+		intendedUpdates = nil
 	}
 
 	for _, upds := range intendedUpdates {
